@@ -212,8 +212,8 @@ def gen_workbook(rng, max_sheets=4):
                     'form': 'f', 'parts': copy.deepcopy(parts),
                     'cached': gen_cached(rng)}
     # shared formula blocks (placed to the right so they never collide)
-    si = 0
     for sh in sheets:
+        si = 0          # shared-formula indices are per sheet
         for _ in range(rng.choice([0, 0, 1, 1, 2])):
             w = rng.choice([1, 1, 2, 3])
             h = rng.choice([1, 2, 3]) if w > 1 or rng.random() < .7 else 1
@@ -268,7 +268,19 @@ def gen_workbook(rng, max_sheets=4):
     # aliases: a second name for the same target
     if dn and rng.random() < 0.3 and pool:
         dn[pool.pop()] = dict(rng.choice(list(dn.values())))
-    wb = {'sheets': sheets, 'names': dn}
+    # sheet-scoped names (localSheetId): not part of the workbook-level
+    # names the model binds; one may shadow a global name
+    local = []
+    if rng.random() < 0.25:
+        for _ in range(rng.randint(1, 2)):
+            sh_i = rng.randrange(len(sheets))
+            tgt = rng.choice(sheets)
+            nm = rng.choice(list(dn)) if dn and rng.random() < 0.6 \
+                else rng.choice(['loc_a', 'loc_b', 'rate'])
+            local.append({'name': nm, 'scope': sh_i, 'sheet': tgt['name'],
+                          'ref': f'{col_letter(rng.randrange(W))}'
+                                 f'{rng.randrange(H) + 1}'})
+    wb = {'sheets': sheets, 'names': dn, 'local_names': local}
     if rng.random() < 0.12:
         wb['date1904'] = True
     return wb
@@ -382,11 +394,16 @@ def render_xlsx(wb, knobs=None):
         wbx += (f'<sheet name={quoteattr(sh["name"])} sheetId="{i + 1}" '
                 f'r:id="rId{i + 1}"/>')
     wbx += '</sheets>'
-    if wb['names']:
+    if wb['names'] or wb.get('local_names'):
         wbx += '<definedNames>'
         for n, t in wb['names'].items():
             wbx += (f'<definedName name="{n}">'
                     f'{escape(name_target_text(t))}</definedName>')
+        for t in wb.get('local_names', []):
+            if t['scope'] < len(sheets):
+                wbx += (f'<definedName name="{t["name"]}" '
+                        f'localSheetId="{t["scope"]}">'
+                        f'{escape(name_target_text(t))}</definedName>')
         wbx += '</definedNames>'
     wbx += '</workbook>'
     parts['xl/workbook.xml'] = wbx
